@@ -130,6 +130,13 @@ def positions_count(ast):
     if k == 'rep': return positions_count(ast[1]) * max(1, ast[2])
     return sum(positions_count(x) for x in ast[1:] if isinstance(x, tuple))
 
+def analyzer_size_exact(ast):
+    """the state count the library's size analysis stands for (2 per primary, X{n} multiplies), in unbounded arithmetic"""
+    k = ast[0]
+    if k == 'set': return 2
+    if k == 'rep': return analyzer_size_exact(ast[1]) * max(1, ast[2])
+    return sum(analyzer_size_exact(x) for x in ast[1:] if isinstance(x, tuple))
+
 # ---------------------------------------------------------------- Glushkov automaton
 def expand(ast):
     """eliminate rep/grp: rep(a, n) -> a a ... a (n copies), rep(a,0) -> epsilon"""
